@@ -56,7 +56,10 @@ def c18_custom(tier, seed):
     lock = os.path.join(CONSTPROBE, "Cargo.lock")
     if not os.path.exists(lock):
         import shutil
-        shutil.copy(os.path.join(driver.repo_path(), "Cargo.lock"), lock)
+        src = os.path.join(driver.repo_path(), "Cargo.lock")
+        if not os.path.exists(src):
+            src = os.path.join(driver.HARNESS, "Cargo.lock")
+        shutil.copy(src, lock)
     full = tier == "thorough"
     argv = ["cargo", "build", "--offline", "--message-format=json"]
     tdir = os.path.join(CONSTPROBE, "target", "full" if full else "quick")
@@ -138,7 +141,10 @@ def c12_corpus(tier, seed):
     lock = os.path.join(CORPUS, "Cargo.lock")
     if not os.path.exists(lock):
         import shutil
-        shutil.copy(os.path.join(driver.repo_path(), "Cargo.lock"), lock)
+        src = os.path.join(driver.repo_path(), "Cargo.lock")
+        if not os.path.exists(src):
+            src = os.path.join(driver.HARNESS, "Cargo.lock")
+        shutil.copy(src, lock)
     expect = json.load(open(os.path.join(CORPUS, "expect.json")))
     rc, msgs, stderr = cargo_json(["cargo", "check", "--offline", "--bins", "--keep-going", "--message-format=json"], CORPUS)
     errs = {}
